@@ -44,6 +44,10 @@ CLAIMS = {
          "Exploration: generated source sets x decoration tuples x windows, each run with and without --summary; stdout must be unchanged, `Printed bytes/lines/messages`, the per-file sums, first/last printed datetimes and resolved filter bounds must equal values computed independently from stdout and the model.",
          "Trusts: summary text layout (labels) as of this tree; colour sequences are not counted in Printed bytes (weaker reading).",
          "DESIGN.md section 4 C19"),
+ "C14": ("property-based testing (proptest): generated filter arguments from the documented grammar, independent resolution oracle observed through the summary and a microsecond probe log",
+         "Exploration: generated absolute (4 shapes x fraction x zone spelling x spacing), bare-date, +epoch, relative-to-now (fixed `now` hook) and '@' relative-to-other values under -t in 15-minute steps; the resolved bound must equal the independently computed instant, to the second in the summary and to the microsecond through a probe log (inclusive semantics); certainly-invalid values, every ambiguous zone name, double '@' and after>before must be rejected with non-zero status and no output.",
+         "Trusts: S4_VERIF_NOW hook for `now`; harness civil-time arithmetic; frozen zone table.",
+         "DESIGN.md section 4 C14"),
 }
 PENDING_REASON = "check not built yet in this session (planned in DESIGN.md section 4); not claimed until its check exists and is silent on the unchanged tree"
 
